@@ -253,9 +253,12 @@ func c10History(c *ctx) {
 		}
 		return a
 	}
+	// one resolver for the whole history (Kitex keeps its resolver): nothing it remembers of an earlier resolution may show
+	rs := xdssuite.NewXDSResolver()
 	clusters := map[string]*gCluster{
 		"cluster-a": {Name: "cluster-a", Type: "EDS", ServiceName: "svc-eds"},
 		"cluster-b": {Name: "cluster-b", Type: "EDS", ServiceName: "other-eds"},
+		"cluster-c": {Name: "cluster-c", Type: "EDS", ServiceName: "svc-eds"}, // a second cluster backed by the same load assignment
 	}
 	var lmu sync.Mutex // guards what the control plane lists (read by resolutions that run in their own goroutine)
 	current := map[string]*gCLA{}
@@ -318,7 +321,7 @@ func c10History(c *ctx) {
 	resolve := func(desc, step string) {
 		var res discovery.Result
 		var rerr error
-		p, pmsg := recoverTo(func() { res, rerr = xdssuite.NewXDSResolver().Resolve(context.Background(), desc) })
+		p, pmsg := recoverTo(func() { res, rerr = rs.Resolve(context.Background(), desc) })
 		o := obj{"panic": p, "panicMsg": pmsg, "err": classifyResolveErr(rerr)}
 		if !p && rerr == nil {
 			o["instances"] = instJSON(res.Instances)
@@ -407,11 +410,27 @@ func c10History(c *ctx) {
 	w.settle()
 	time.Sleep(60 * time.Millisecond)
 	resolve("cluster-b", "after a push that re-uses the previous version string for new endpoints")
+	// d2. a second cluster that names the load assignment of cluster-a: its result is its own (key, cacheability)
+	lmu.Lock()
+	present["cluster-c"] = true
+	lmu.Unlock()
+	done = make(chan struct{})
+	go func() {
+		resolve("cluster-c", "first resolution of a second cluster backed by the same load assignment")
+		close(done)
+	}()
+	if waitInterest("cds", "cluster-c") {
+		pushCDS("5c", "cluster-a", "cluster-b", "cluster-c")
+	} else {
+		ignored("cds", "cluster-c")
+	}
+	<-done
+	resolve("cluster-a", "after the second cluster of the same load assignment was resolved")
 	// e. the control plane removes cluster-a, later lists it again with other endpoints
-	pushCDS("6", "cluster-b")
+	pushCDS("6", "cluster-b", "cluster-c")
 	w.settle()
 	resolve("cluster-a", "while the control plane does not list the cluster")
-	pushCDS("7", "cluster-a", "cluster-b")
+	pushCDS("7", "cluster-a", "cluster-b", "cluster-c")
 	pushEDS("8", mkCLA("svc-eds", 8))
 	w.settle()
 	time.Sleep(60 * time.Millisecond)
